@@ -5,6 +5,10 @@ V = os.path.dirname(os.path.dirname(os.path.abspath(__file__)))
 TRUST = ("Trusted: the pyvc engine's semantics for the Python subset (DESIGN 2.2), the environment contracts listed in "
          "evidence.trusted_base (sqlite3 binding, pickle/json/zlib/struct/codecs, files, clock), z3/cvc5. ")
 CLAIMS = {
+ 'C01': dict(
+   text="Proof that fetch(store(v)) is v with its type for every value class (str, bytes, int of any magnitude, float incl. NaN/inf/-0.0, bool, None, other picklable, binary stream) with symbolic disk_min_file_size >= 0 (both sides of the file threshold are paths), symbolic pickle protocol and compress level, for Disk and JSONDisk: Disk.store, _write, filename, fetch and the JSONDisk wrappers are symbolically executed from /repo; the chunk loop of _write carries an inductive invariant (file content = concatenation of chunks consumed); the recorded size equals the bytes written; a raw float handed to sqlite is never NaN; _write returns only after complete content or re-raises on the 10th failed open.",
+   note=TRUST + "File semantics (exclusive create, text codec/newline/errors behaviour, A-POSIX), pickle/json/zlib inverses and the sqlite3 column round-trip are environment contracts; single client between store and fetch; JSONDisk restricted to JSON-round-trippable values; streams stored under JSONDisk are specified for read=True lookups only. Carrier obligations (Cache methods pass value/columns unchanged) belong to the Cache-level checks.",
+   tech="contract-based deductive verification: symbolic execution of the real store/fetch bodies per value class, loop invariant for the chunk loop, z3"),
  'C02': dict(
    text="Proof of the key-addressing clauses for all keys: Disk.put/Disk.get and JSONDisk.put/get are symbolically executed from /repo per key class (str, bytes, int of any magnitude, float, bool, None, other picklable) and z3 discharges get(put(k)) is k with its type, and for all 28 class pairs x {Disk, JSONDisk}: two keys reach the same (key, raw) index entry iff they are equal under the documented rule. Two JSONDisk defects are recorded findings with proved residuals.",
    note=TRUST + "Key equality for non-native keys is identity of type and structure (A-PICKLE-canon); ints beyond 64 bits count as non-native. Lookup sites (WHERE key = ? AND raw = ?) are covered by the Cache-level checks when claimed. Undecided obligations fall back to the bounded stand-in (native enumeration, never counted as proved).",
